@@ -6,7 +6,10 @@
 #endif
 typedef struct { int id; size_t len; } gvec;
 typedef struct NodeData { struct NodeData *next; gvec point; gvec value; } NodeData;
-typedef struct TensorData { struct TensorData *next; double weight; gvec tensor; } TensorData;
+#ifndef TSG_NPT
+#define TSG_NPT 3
+#endif
+typedef struct TensorData { struct TensorData *next; double weight; gvec tensor; int npoints; bool loaded[TSG_NPT]; size_t loaded_size; } TensorData;
 typedef struct { NodeData bb; } NodeDataList;      /* bb: the before_begin sentinel, bb.next is begin() */
 typedef struct { TensorData bb; } TensorDataList;
 typedef struct { TensorDataList tensors; NodeDataList data; } DynamicConstructorDataGlobal;
@@ -107,5 +110,43 @@ void h_clearTesnors(void){
     if (q != NULL) q = q->next;
   }
   __CPROVER_assert(q == NULL, "C08 clearTesnors drops every tensor that is not an initial one: no stale candidate survives a new request (and a change of limits)");
+  __CPROVER_assert(0, "VACUITY-CANARY");
+}
+
+//@ text2
+/* reloadPoints: ghost point sets.  generateNestedPoints gives each tensor some number of points; getSlot(t, p) is a deterministic function of
+ * the tensor and the node (slot in [0, npoints) when the node belongs to the tensor, -1 otherwise), logged per (tensor, node) pair. */
+static int tsg_generateNestedPoints(TensorData *t){ int n = nondet_int(); __CPROVER_assume(n >= 0 && n <= TSG_NPT); return n; }
+static void tsg_loaded_assign(TensorData *t, size_t n, bool v){ __CPROVER_assert(n <= TSG_NPT, "shim: flag capacity suffices"); t->loaded_size = n; for (size_t k = 0; k < TSG_NPT; k++) t->loaded[k] = v; }
+static size_t tsg_loaded_index(const TensorData *t, int i){ __CPROVER_assert(i >= 0 && (size_t) i < t->loaded_size, "C17 reloadPoints: the flag index is inside the vector sized for the tensor's points"); return (size_t) i; }
+#define TSG_PAIRS (TSG_NL * TSG_NL)
+const TensorData *g_pt[TSG_PAIRS]; const NodeData *g_pn[TSG_PAIRS]; int g_ps[TSG_PAIRS]; int g_npairs;
+static int tsg_getSlot(const TensorData *t, const NodeData *p){
+  for (int k = 0; k < TSG_PAIRS; k++) if (k < g_npairs && g_pt[k] == t && g_pn[k] == p) return g_ps[k];
+  int s = nondet_int(); __CPROVER_assume(s >= -1 && s < t->npoints);
+  __CPROVER_assert(g_npairs < TSG_PAIRS, "shim: pair log capacity suffices");
+  g_pt[g_npairs] = t; g_pn[g_npairs] = p; g_ps[g_npairs] = s; g_npairs++;
+  return s;
+}
+
+//@ harness h_reloadPoints
+void h_reloadPoints(void){
+  DynamicConstructorDataGlobal g; int a_nn = nondet_int(), a_nt = nondet_int();
+  __CPROVER_assume(a_nn >= 0 && a_nn <= TSG_NL && a_nt >= 0 && a_nt <= TSG_NL);
+  node_pool_used = 0; tensor_pool_used = 0; g.data.bb.next = NULL; g.tensors.bb.next = NULL; g_npairs = 0;
+  for (int k = 0; k < TSG_NL; k++) if (k < a_nn) tsg_fl_emplace_front_NodeData(&g.data, vec_sym(2), vec_sym(1));
+  for (int k = 0; k < TSG_NL; k++) if (k < a_nt) { tsg_fl_emplace_front_TensorData(&g.tensors, nondet_double(), vec_sym(2)); g.tensors.bb.next->npoints = 0; g.tensors.bb.next->loaded_size = 0; }
+  DynamicConstructorDataGlobal_reloadPoints(&g);
+  /* witnesses: any tensor of the list, any point slot of it */
+  int a_t = nondet_int(), a_s = nondet_int();
+  __CPROVER_assume(a_t >= 0 && a_t < a_nt);
+  const TensorData *t = g.tensors.bb.next; for (int k = 0; k < TSG_NL; k++) if (k < a_t && t != NULL) t = t->next;
+  if (t != NULL) {
+    __CPROVER_assume(a_s >= 0 && a_s < t->npoints);
+    __CPROVER_assert(t->loaded_size == (size_t) t->npoints, "C17 reloadPoints: one flag per point of the tensor");
+    bool stored = false;        /* is some stored node the point a_s of tensor t? */
+    for (const NodeData *p = g.data.bb.next; p != NULL; p = p->next) if (tsg_getSlot(t, p) == a_s) stored = true;
+    __CPROVER_assert(t->loaded[a_s] == stored, "C17 after reading a checkpoint a point of a candidate tensor is flagged loaded exactly when its value is in the stored node list (a checkpointed sample is not requested again, a missing one is)");
+  }
   __CPROVER_assert(0, "VACUITY-CANARY");
 }
